@@ -1436,6 +1436,23 @@ where
                 )
             });
 
+            // A node whose incarnation has left the map (the key was invalidated, and its
+            // removal op is not applied yet) still counts in the weighted size, but its
+            // weight is about to be given back: do not evict live entries on its behalf.
+            if let Some(((key, info), _, _)) = &maybe_key_and_ts {
+                let gone = !self
+                    .cache
+                    .get(&**key)
+                    .map(|e| std::ptr::eq(&**e.entry_info(), *info))
+                    .unwrap_or(false);
+                if gone {
+                    let weight = unsafe { &**info }.accounted_weight();
+                    evicted = evicted.saturating_add(weight as u64);
+                    deq.move_front_to_back();
+                    continue;
+                }
+            }
+
             let ((key, info), ts) = match maybe_key_and_ts {
                 Some((key, false, Some(ts))) => (key, ts),
                 // TODO: Remove the second pattern `Some((_key, false, None))` once we change
